@@ -225,6 +225,8 @@ pub enum Op {
     CloneEngine { src: usize, dst: usize },
     /// `dst.clone_from(&src)` on an existing engine (falls back to a plain clone if `dst` is empty)
     CloneFrom { src: usize, dst: usize },
+    /// `dst.condition.clone_from(&src.condition)` (only between engines over the same voice set)
+    CloneCond { src: usize, dst: usize },
     /// load another voice set into an existing engine: `condition.load_model(&vs); voices = vs`
     Reload { e: usize, voices: Vec<VoiceRef> },
     DropEngine { e: usize },
@@ -232,7 +234,7 @@ pub enum Op {
     SetW { e: usize, which: Which, w: Vec<f64> },
     /// C19: VoiceSet::new(voices) where voice `mutate.0` has metadata field `mutate.1` changed
     /// `mutate.2` selects how the field is changed (0 grow/append/flip, 1 shrink/remove, 2 alter in place)
-    VsNew { voices: Vec<VoiceRef>, mutate: Option<(usize, MetaField, u8)> },
+    VsNew { voices: Vec<VoiceRef>, mutate: Option<(usize, MetaField, u8)>, mutate2: Option<(usize, MetaField, u8)> },
     Synth { e: usize, utt: Utt, form: Form },
     /// a *failing* call: label text that is not well-formed
     SynthBad { e: usize, utt: Utt, bad_at: usize, bad_kind: u8 },
@@ -273,6 +275,7 @@ impl TOp {
             Op::Load { e, voices, via_files } => format!("t{} load e{} {} {}", t, e, *via_files as u8, vrefs(voices)),
             Op::CloneEngine { src, dst } => format!("t{} clone e{} e{}", t, src, dst),
             Op::CloneFrom { src, dst } => format!("t{} clonefrom e{} e{}", t, src, dst),
+            Op::CloneCond { src, dst } => format!("t{} clonecond e{} e{}", t, src, dst),
             Op::Reload { e, voices } => format!("t{} reload e{} {}", t, e, vrefs(voices)),
             Op::DropEngine { e } => format!("t{} dropengine e{}", t, e),
             Op::Set { e, s } => format!("t{} set e{} {}", t, e, s.to_text()),
@@ -281,12 +284,16 @@ impl TOp {
                 let hs: Vec<String> = w.iter().map(|x| format!("{}", x)).collect();
                 format!("t{} setw e{} {} {} #{}", t, e, which.to_text(), if ws.is_empty() { "-".into() } else { ws.join(",") }, hs.join(","))
             }
-            Op::VsNew { voices, mutate } => format!(
-                "t{} vsnew {} {}",
+            Op::VsNew { voices, mutate, mutate2 } => format!(
+                "t{} vsnew {}{} {}",
                 t,
                 match mutate {
                     None => "none".to_string(),
                     Some((p, f, v)) => format!("{}/{}/{}", p, f.to_text(), v),
+                },
+                match mutate2 {
+                    None => String::new(),
+                    Some((p, f, v)) => format!("+{}/{}/{}", p, f.to_text(), v),
                 },
                 vrefs(voices)
             ),
@@ -310,6 +317,7 @@ impl TOp {
             "load" => Op::Load { e: slot(w.get(2)?, 'e')?, via_files: *w.get(3)? == "1", voices: parse_vrefs(w.get(4)?)? },
             "clone" => Op::CloneEngine { src: slot(w.get(2)?, 'e')?, dst: slot(w.get(3)?, 'e')? },
             "clonefrom" => Op::CloneFrom { src: slot(w.get(2)?, 'e')?, dst: slot(w.get(3)?, 'e')? },
+            "clonecond" => Op::CloneCond { src: slot(w.get(2)?, 'e')?, dst: slot(w.get(3)?, 'e')? },
             "reload" => Op::Reload { e: slot(w.get(2)?, 'e')?, voices: parse_vrefs(w.get(3)?)? },
             "dropengine" => Op::DropEngine { e: slot(w.get(2)?, 'e')? },
             "set" => Op::Set { e: slot(w.get(2)?, 'e')?, s: Setter::from_words(&w[3..])? },
@@ -319,17 +327,24 @@ impl TOp {
                 Op::SetW { e: slot(w.get(2)?, 'e')?, which: Which::from_text(w.get(3)?)?, w: v }
             }
             "vsnew" => {
-                let m = *w.get(2)?;
-                let mutate = if m == "none" {
-                    None
-                } else {
+                let parse_one = |m: &str| -> Option<(usize, MetaField, u8)> {
                     let mut it = m.split('/');
                     let p = it.next()?;
                     let f = it.next()?;
                     let v = it.next().and_then(|x| x.parse().ok()).unwrap_or(0u8);
                     Some((p.parse().ok()?, MetaField::from_text(f)?, v))
                 };
-                Op::VsNew { voices: parse_vrefs(w.get(3)?)?, mutate }
+                let m = *w.get(2)?;
+                let (m1, m2) = match m.split_once('+') {
+                    Some((a, b)) => (a, Some(b)),
+                    None => (m, None),
+                };
+                let mutate = if m1 == "none" { None } else { Some(parse_one(m1)?) };
+                let mutate2 = match m2 {
+                    Some(b) => Some(parse_one(b)?),
+                    None => None,
+                };
+                Op::VsNew { voices: parse_vrefs(w.get(3)?)?, mutate, mutate2 }
             }
             "synth" => Op::Synth { e: slot(w.get(2)?, 'e')?, form: Form::from_name(w.get(3)?)?, utt: Utt::from_text(w.get(4)?)? },
             "synthbad" => Op::SynthBad {
@@ -354,6 +369,7 @@ impl TOp {
             Op::Load { .. } => "load",
             Op::CloneEngine { .. } => "clone",
             Op::CloneFrom { .. } => "clonefrom",
+            Op::CloneCond { .. } => "clonecond",
             Op::Reload { .. } => "reload",
             Op::DropEngine { .. } => "dropengine",
             Op::Set { .. } => "set",
